@@ -240,6 +240,18 @@ Proof.
   rewrite andb_true_iff, df_eqb_spec, IH. split; [now intros [-> ->]|now intros [= -> ->]].
 Qed.
 
+Lemma deliv_eqb_spec a b : deliv_eqb a b = true <-> a = b.
+Proof.
+  destruct a as [[[w sn] x]|], b as [[[w' sn'] y]|]; cbn; try (split; [discriminate|discriminate]); [|tauto].
+  rewrite !andb_true_iff, !Z.eqb_eq, bytes_eqb_spec.
+  split; [intros ((-> & ->) & ->); reflexivity | intros [= -> -> ->]; tauto].
+Qed.
+Lemma delivs_eqb_spec a : forall b, delivs_eqb a b = true <-> a = b.
+Proof.
+  induction a as [|x a IH]; intros [|y b]; cbn; try (split; [discriminate|discriminate]); [tauto|].
+  rewrite andb_true_iff, deliv_eqb_spec, IH. split; [now intros [-> ->]|now intros [= -> ->]].
+Qed.
+
 (* ---------------------------------------------------------------------------------------- *)
 (* the fragment-list oracle *)
 Lemma frags_okb_mk sp sn fs (Hfs : 1 <= fs) : forall (c : nat) k,
@@ -334,6 +346,7 @@ Definition obs_spec (c : case) (o : obs) : Prop :=
       else d = None /\ split_spec sn dmax sp fr
   | CHonest ws arr, OAsm outs => outs = spec_outs ws [] arr
   | CRaw ops, OAsm outs => raw_spec ops outs
+  | CReader ws arr, ODeliv ds => ds = deliveries [] (map (to_op ws) arr) (spec_outs ws [] arr)
   | _, _ => False
   end.
 
@@ -356,7 +369,7 @@ Qed.
 Theorem oracle_sound c o : wf_case c = true -> ok c o = true -> obs_spec c o.
 Proof.
   intros Hwf H. unfold ok in H. rewrite Hwf in H. cbn [negb] in H.
-  destruct c as [dmax sn sp|ws arr|ops], o as [d fr|outs| |]; try discriminate; cbn [obs_spec].
+  destruct c as [dmax sn sp|ws arr|ops|ws arr], o as [d fr|outs|ds| |]; try discriminate; cbn [obs_spec].
   - cbn [wf_case] in Hwf. rewrite !andb_true_iff, !Z.leb_le, Z.ltb_lt in Hwf.
     destruct Hwf as (((Hd1 & Hd2) & HD) & _).
     destruct (payload_size sp <=? dmax).
@@ -378,6 +391,7 @@ Proof.
       split; [assumption|]. split; assumption.
   - now apply aouts_eqb_spec.
   - now apply raw_okb_spec.
+  - now apply delivs_eqb_spec.
 Qed.
 
 (* ---------------------------------------------------------------------------------------- *)
@@ -392,7 +406,7 @@ Qed.
 Theorem model_ok : forall c, ok c (run c) = true.
 Proof.
   intros c. unfold ok, run. destruct (wf_case c) eqn:Hwf; cbn [negb]; [|reflexivity].
-  destruct c as [dmax sn sp|ws arr|ops].
+  destruct c as [dmax sn sp|ws arr|ops|ws arr].
   - cbn [wf_case] in Hwf. rewrite !andb_true_iff, !Z.leb_le, Z.ltb_lt in Hwf.
     destruct Hwf as (((Hd1 & Hd2) & HD) & _).
     destruct (Z.leb_spec (payload_size sp) dmax) as [Hle|Hgt].
@@ -409,6 +423,8 @@ Proof.
   - cbn [wf_case] in Hwf. rewrite (honest_run_spec ws arr Hwf). now apply aouts_eqb_spec.
   - cbn [wf_case] in Hwf. apply run_ops_no_panic; [apply rinv_nil|].
     rewrite forallb_forall in Hwf. apply Forall_forall. intros o Ho. apply op_okb_spec. now apply Hwf.
+  - cbn [wf_case] in Hwf. apply andb_true_iff in Hwf as (Hwf & _).
+    rewrite (honest_run_spec ws arr Hwf). now apply delivs_eqb_spec.
 Qed.
 
 
